@@ -332,14 +332,15 @@ def base_names(symbols):
     return out
 
 
-def twin_names(symbols):
-    """conventional, fold-distinct names on other stems than `base_names` (no accidental coincidence with a
-    case variant of a name of the main case)"""
+def twin_names(symbols, upper):
+    """fold-distinct names on other stems than `base_names`, written entirely in lower case or entirely in
+    upper case.  A defect that folds names one way leaves one of the two twins untouched."""
     out, k = {}, {'comp': 0, 'id': 0, 'ds': 0, 'alias': 0}
     for s in symbols:
         kd = sym_kind(s)
         k[kd] += 1
-        out[s] = {'comp': 'Qm_%d', 'id': 'Ka_%d', 'ds': 'TB_%d', 'alias': 'w%d'}[kd] % (k[kd] + 10)
+        n = {'comp': 'qm_%d', 'id': 'ka_%d', 'ds': 'tb_%d', 'alias': 'w%d'}[kd] % (k[kd] + 10)
+        out[s] = n.upper() if upper else n
     return out
 
 
@@ -502,8 +503,7 @@ def make_case(rng, idx):
             inputs[m[str(n)]] = R.RDS({Sym(m[str(c)]): v for c, v in d.comps.items()},
                                       [{m[str(c)]: v for c, v in r.items()} for r in d.rows])
         case = {'idx': idx, 'mode': mode, 'script': script, 'inputs': inputs, 'pair': None if pair is None else [m[pair[0]], m[pair[1]]]}
-        tm = twin_names(symbols)
-        tscript = R.subst([tuple(s) for s in stmts], tm)
+        path = None
         if mode == 'wrongcase':
             sites = wrongcase_sites(script)
             if not sites:
@@ -518,25 +518,33 @@ def make_case(rng, idx):
             new = rng.choice(vs)
             case['script'] = set_path(script, path, Sym(new))
             case['wrong'] = [str(old), new, context_of(script, path)]
-            tscript = set_path(tscript, path, Sym('Zz_99'))
-        case['twin'] = {'script': tscript, 'rho': {tm[s]: m[s] for s in symbols},
-                        'inputs': {tm[str(n)]: R.RDS({Sym(tm[str(c)]): v for c, v in d.comps.items()},
-                                                     [{tm[str(c)]: v for c, v in r.items()} for r in d.rows])
-                                   for n, d in g.inputs.items()}}
+        case['twins'] = []
+        for upper in (False, True):
+            tm = twin_names(symbols, upper)
+            tscript = R.subst([tuple(s) for s in stmts], tm)
+            if path is not None:
+                tscript = set_path(tscript, path, Sym('ZZ_99' if upper else 'zz_99'))
+            case['twins'].append({'script': tscript, 'rho': {tm[s]: m[s] for s in symbols},
+                                  'inputs': {tm[str(n)]: R.RDS({Sym(tm[str(c)]): v for c, v in d.comps.items()},
+                                                               [{tm[str(c)]: v for c, v in r.items()} for r in d.rows])
+                                             for n, d in g.inputs.items()}})
         return case
     raise RuntimeError('generator failed 20 times')
 
 
-def generic_twin(script, inputs):
-    """the same concrete case with every name replaced by a conventional fold-distinct one"""
+def generic_twins(script, inputs):
+    """the same concrete case with every name replaced by a fold-distinct all-lower-case / all-upper-case one"""
     names = []
     for n in [str(x) for x in inputs] + [str(c) for d in inputs.values() for c in d.comps] + R.syms(list(script)):
         if n not in names:
             names.append(n)
-    tm = {n: 'Tw_%d' % (i + 11) for i, n in enumerate(names)}
-    return {'script': R.subst(list(script), tm), 'rho': {v: k for k, v in tm.items()},
-            'inputs': {tm[str(n)]: R.RDS({Sym(tm[str(c)]): v for c, v in d.comps.items()},
-                                         [{tm[str(c)]: v for c, v in r.items()} for r in d.rows]) for n, d in inputs.items()}}
+    out = []
+    for pat in ('tw_%d', 'TW_%d'):
+        tm = {n: pat % (i + 11) for i, n in enumerate(names)}
+        out.append({'script': R.subst(list(script), tm), 'rho': {v: k for k, v in tm.items()},
+                    'inputs': {tm[str(n)]: R.RDS({Sym(tm[str(c)]): v for c, v in d.comps.items()},
+                                                 [{tm[str(c)]: v for c, v in r.items()} for r in d.rows]) for n, d in inputs.items()}})
+    return out
 
 
 def corpus():
@@ -555,7 +563,7 @@ def corpus():
 
     def add(tag, inputs, script):
         out.append({'idx': 'corpus-' + tag, 'mode': 'corpus', 'script': script, 'inputs': {S(k): v for k, v in inputs.items()},
-                    'pair': None, 'twin': generic_twin(script, {S(k): v for k, v in inputs.items()})})
+                    'pair': None, 'twins': generic_twins(script, {S(k): v for k, v in inputs.items()})})
     add('F1', {'DS_1': ds([('Id_1', I), ('Me_1', N), ('me_1', N)], (1, 1.0, 10.0), (2, 2.0, 20.0))}, [(S('DS_r'), True, ('ds', S('DS_1')))])
     add('F2', {'DS_1': one(), 'ds_1': ds([('Id_1', I), ('Me_1', N)], (1, 100.0), (2, 200.0))},
         [(S('DS_r'), True, ('bin', '+', ('ds', S('DS_1')), ('ds', S('ds_1'))))])
@@ -1116,12 +1124,12 @@ def _main(ck, pool, t0):
         c['got'] = results[c['idx']]
         c['diff'] = diff(c['expected'], c['got'])
         if c['diff'] is not None:
-            t = c['twin']
-            t['text'] = R.render(t['script'])
-            t['expected'], t['trace'] = R.evaluate(t['script'], t['inputs'])
-            jobs2.append((c['idx'], t['text'], structures_of(t['inputs']), data_of(t['inputs'])))
+            for ti, t in enumerate(c['twins']):
+                t['text'] = R.render(t['script'])
+                t['expected'], t['trace'] = R.evaluate(t['script'], t['inputs'])
+                jobs2.append(((c['idx'], ti), t['text'], structures_of(t['inputs']), data_of(t['inputs'])))
     results2 = pool.run(jobs2, 60 if ck.quick() else 600)
-    dbg('engine pass 2 done (%d twins)' % len(jobs2))
+    dbg('engine pass 2 done (%d of %d twin runs)' % (len(results2), len(jobs2)))
     t_engine = time.time() - t0
 
     hist, outcomes, unrelated = {}, {}, {}
@@ -1147,19 +1155,19 @@ def _main(ck, pool, t0):
         if d[0] == 'timeout':
             bump(outcomes, cat + ':timeout')
             continue
-        t = c['twin']
-        if c['idx'] not in results2:
-            bump(outcomes, cat + ':twin-not-run(wall budget)')
+        if any((c['idx'], ti) not in results2 for ti in (0, 1)):
+            bump(outcomes, cat + ':twins-not-run(wall budget)')
             continue
-        tgot = results2[c['idx']]
-        td = diff(t['expected'], tgot)
-        if td is not None and outcome_equiv(got, tgot, t['rho']):
-            # the engine does the same thing to this script when its names are conventional and fold-distinct:
-            # it is case-equivariant here; the disagreement with the reference is not about letter case
-            bump(unrelated, '%s: %s' % (td[0], '+'.join(sorted(set(t['trace'].contexts)))))
+        tds = [diff(t['expected'], results2[(c['idx'], ti)]) for ti, t in enumerate(c['twins'])]
+        if all(td is not None for td in tds) and all(outcome_equiv(got, results2[(c['idx'], ti)], t['rho']) for ti, t in enumerate(c['twins'])):
+            # the engine does the same thing to this script when all its names are fold-distinct and written in
+            # lower case, and when they are written in upper case: it is case-equivariant here; the disagreement
+            # with the reference is not about letter case
+            bump(unrelated, '%s: %s' % (tds[0][0], '+'.join(sorted(set(c['twins'][0]['trace'].contexts)))))
             bump(outcomes, cat + ':unrelated-to-case')
             continue
-        extra = {'twin': {'script': t['text'], 'engine_agrees_with_reference': td is None}, 'wrong': c.get('wrong')}
+        extra = {'twins': [{'script': t['text'], 'engine_agrees_with_reference': td is None} for t, td in zip(c['twins'], tds)],
+                 'wrong': c.get('wrong')}
         if cat == 'colliding':
             key = '%s|%s' % (col[0], coarse(d[0]))
             bump(outcomes, 'colliding:' + key + ' / ' + d[0])
@@ -1224,8 +1232,9 @@ def _main(ck, pool, t0):
     ck.note('engine_wall_s', round(t_engine, 1))
     ck.note('lean_requests', len(lines))
     ck.trusted('reference evaluator harness/checks/c29_ref.py (exact-name semantics of the generated operator subset)',
-               'twin rule: a disagreement that the engine reproduces identically on the same script with conventional '
-               'fold-distinct names is attributed to something other than letter case (listed under unrelated_engine_disagreements)',
+               'twin rule: a disagreement that the engine reproduces identically on the same script with fold-distinct names '
+               'written all in lower case AND all in upper case is attributed to something other than letter case '
+               '(listed under unrelated_engine_disagreements)',
                'stand-in parser harness/vtlstub (scripts are given as text)',
                'DuckDB (catalog behaviour is observed, not verified)',
                'comparison: names exact, values with rel/abs tolerance 1e-9, rows matched by identifier values')
